@@ -14,7 +14,7 @@
   OBLIGATIONS (audited by `check` with `#print axioms`):
     attempts_bounded, backoff_monotone_bounded, delay_next_monotone_bounded, callbacks_fire_once,
     callbacks_fire_once_nodup, callbacks_fire_bounded, empty_callbacks_fire_bounded, later_batches_processed,
-    drain_on_close, wait_timeout_within_budget, blocking_entry_total
+    drain_on_close, wait_timeout_within_budget, blocking_entry_total_partial
 -/
 import EmitModel.Lemmas.BatcherLive
 
@@ -170,7 +170,7 @@ theorem wait_timeout_within_budget (δ timeout : Nat) (flag0 : Bool) (wakes : Li
     panicked ("Cannot start a runtime from within a runtime"); stream `batcher_blocking` reproduces that on the
     unfixed tree. That the condvar wait itself then returns within the timeout is `wait_timeout_within_budget`
     (under the runtime assumption about `Condvar::wait_timeout`) — sampled, *partial*. -/
-theorem blocking_entry_total (api : Api) (ctx : Ctx) :
+theorem blocking_entry_total_partial (api : Api) (ctx : Ctx) :
     pathPanics (blockingPath api ctx) ctx = false ∧ blockingPath api ctx ≠ .handleBlockOn := by
   cases api <;> cases ctx <;> decide
 
